@@ -47,4 +47,7 @@ theorem holds_plugin_exits_gracefully (c : Cfg) : pluginDone Facts.resources c =
 theorem holds_kill_removes_own_dir (sharedCfg : Bool) : killRemovesOwnDir Facts.resources sharedCfg = true :=
   Props.C18.kill_removes_own_dir _ (by decide) sharedCfg
 
+theorem holds_no_dir_without_runner : dirLeftWithoutRunner Facts.resources = false :=
+  Props.C18.no_dir_without_runner _ (by decide)
+
 end GoPlugin.Instance.C18
